@@ -6,6 +6,9 @@
 #include <yaclib/fault/detail/wait_status.hpp>
 
 #include <vector>
+#ifdef YACLIB_VERIF
+#  include <yaclib/fault/verif.hpp>
+#endif
 
 namespace yaclib::detail::fiber {
 
@@ -29,10 +32,16 @@ class FiberQueue final {
     auto* fiber = fault::Scheduler::Current();
     auto* queue_node = static_cast<BiNodeWaitQueue*>(fiber);
     _queue.PushBack(queue_node);
+#ifdef YACLIB_VERIF
+    verif::OnSync(this, verif::kParkTimed, 0);
+#endif
     auto* scheduler = fault::Scheduler::GetScheduler();
     scheduler->SleepPreemptive(
       std::chrono::duration_cast<std::chrono::nanoseconds>(time_point.time_since_epoch()).count());
     bool res = queue_node->Erase();
+#ifdef YACLIB_VERIF
+    verif::OnSync(this, verif::kWake, res ? 1 : 0);
+#endif
     return res ? WaitStatus::Timeout : WaitStatus::Ready;
   }
 
